@@ -21,14 +21,14 @@ impl Read for Src<'_> {
     }
 }
 
-type Target = (&'static str, Vec<u8>, /* needs BufRead: wrapped in BufReader */ bool, Box<dyn Fn(&mut dyn Read, Option<usize>) -> Result<Vec<String>, String>>);
+pub(crate) type Target = (&'static str, Vec<u8>, /* needs BufRead: wrapped in BufReader */ bool, Box<dyn Fn(&mut dyn Read, Option<usize>) -> Result<Vec<String>, String>>);
 
 fn lines_of<T: std::fmt::Debug, E: std::fmt::Display>(it: impl Iterator<Item = Result<T, E>>, limit: usize) -> Result<Vec<String>, String> {
     let mut v = Vec::new(); for r in it { match r { Ok(x) => v.push(format!("{x:?}")), Err(e) => { v.push(format!("ERROR {e}")); break; } } if v.len() > limit { v.push("(more than the limit)".into()); break; } } Ok(v)
 }
 macro_rules! buffered { ($r:expr, $cap:expr) => { BufReader::with_capacity($cap.unwrap_or(8192), $r) }; }
 
-fn targets() -> Result<Vec<Target>, String> {
+pub(crate) fn targets() -> Result<Vec<Target>, String> {
     use alignment::io::{CompressionMethod as ACm, Format as AF};
     use variant::io::{CompressionMethod as VCm, Format as VF};
     let mut t: Vec<Target> = Vec::new();
